@@ -82,6 +82,9 @@ func c11Round(rng *Rng, G, perG int, inject bool) (bad []c11Mismatch, calls int,
 		for k := 0; k < perG; k++ {
 			st := &c12Step{re: rng.Intn(len(specs)), text: Pick(rng, texts), startAt: -1, count: -1}
 			st.op = Pick(rng, []int{1, 1, 2, 3, 4, 6, 7, 8, 8, 8, 9, 10, 11})
+			if c12IsDeep(st.text) && specs[st.re].timeout != 0 {
+				st.text = c12Calm(rng, texts)
+			}
 			if c12IsCatastrophic(st.text) && specs[st.re].timeout != 0 {
 				if nTimeoutJobs >= 2*G || st.op >= 8 {
 					st.text = c12Calm(rng, texts)
